@@ -178,6 +178,11 @@ type tiFn struct {
 	ctx       []string            // enclosing "for" / "switch", innermost last
 	noHoist   bool
 	closure   map[*types.Var]bool // non-nil while translating a sort.Slice closure: the variables it declares
+	// codec IR: `defer func() { … }()` lowered to a flag and an epilogue before every return
+	deferFlag int
+	deferLit  *ast.FuncLit
+	deferRes  []int
+	inDefer   bool
 }
 
 func (f *tiFn) info() *types.Info { return f.x.p.TypesInfo }
@@ -325,7 +330,12 @@ func (f *tiFn) run() string {
 		}
 		return true
 	})
-	stmts := f.block(f.fd.Body.List, "    ")
+	f.deferFlag = -1
+	var prologue []string
+	if f.x.codec {
+		prologue = f.codecDeferSetup()
+	}
+	stmts := append(prologue, f.block(f.fd.Body.List, "    ")...)
 	if len(stmts) == 0 {
 		return "    .skip"
 	}
@@ -450,7 +460,7 @@ func (f *tiFn) expr(e ast.Expr) string {
 		}
 		return f.unknownE(v, "index of something the IR does not model")
 	case *ast.SliceExpr:
-		if v.Slice3 || !isStringType(f.typ(v.X)) || f.x.codec {
+		if v.Slice3 || !isStringType(f.typ(v.X)) {
 			return f.unknownE(v, "slice expression other than on a string")
 		}
 		switch {
@@ -479,6 +489,16 @@ func (f *tiFn) expr(e ast.Expr) string {
 		}
 		return f.unknownE(v, "composite literal")
 	case *ast.TypeAssertExpr:
+		if v.Type != nil && f.x.codec {
+			if pt, ok := f.typ(v.Type).(*types.Pointer); ok {
+				switch {
+				case isNamedType(pt.Elem(), codecParsePkg, "GroupNode"):
+					return fmt.Sprintf("(.ext1 .assertGroup %s)", f.expr(v.X))
+				case isNamedType(pt.Elem(), codecParsePkg, "ValueNode"):
+					return fmt.Sprintf("(.ext1 .assertValue %s)", f.expr(v.X))
+				}
+			}
+		}
 		if v.Type != nil {
 			if pt, ok := f.typ(v.Type).(*types.Pointer); ok {
 				if _, isS := f.x.pkgStruct(pt.Elem()); isS {
@@ -566,6 +586,11 @@ func (f *tiFn) selector(v *ast.SelectorExpr) string {
 	if sel == nil || sel.Kind() != types.FieldVal {
 		return f.unknownE(v, "selector that is not a field")
 	}
+	if f.x.codec {
+		if s, ok := f.codecSelector(v); ok {
+			return s
+		}
+	}
 	if isNamedType(f.typ(v.X), "reflect", "StructField") {
 		if op, ok := tiStructFieldOps[v.Sel.Name]; ok && !f.x.codec {
 			return fmt.Sprintf("(.ext1 .%s %s)", op, f.expr(v.X))
@@ -611,6 +636,26 @@ func (f *tiFn) zero(t types.Type) (string, bool) {
 
 // litFields fills vals (flattened path ↦ expression) from a composite literal of a struct of the package.
 func (f *tiFn) litFields(lit *ast.CompositeLit, prefix string, vals map[string]string) bool {
+	if f.x.codec && prefix == "" && len(lit.Elts) > 0 {
+		if _, isKV := lit.Elts[0].(*ast.KeyValueExpr); !isKV {
+			// positional literal: every field, in order
+			name, ok := f.x.pkgStruct(f.typ(lit))
+			if !ok {
+				return false
+			}
+			fl, _ := f.x.flatten(name)
+			if len(fl) != len(lit.Elts) {
+				return false
+			}
+			for i, el := range lit.Elts {
+				if _, isKV := el.(*ast.KeyValueExpr); isKV {
+					return false
+				}
+				vals[fl[i].path] = f.expr(el)
+			}
+			return true
+		}
+	}
 	for _, el := range lit.Elts {
 		kv, ok := el.(*ast.KeyValueExpr)
 		if !ok {
@@ -936,6 +981,11 @@ func (f *tiFn) assignStmt(v *ast.AssignStmt, ind string) []string {
 			}
 		}
 	}
+	if f.x.codec {
+		if out, ok := f.codecStoreStmt(v, c, ind); ok {
+			return out
+		}
+	}
 	var ls []string
 	for _, l := range v.Lhs {
 		s := f.lhs(l)
@@ -1094,6 +1144,9 @@ func (f *tiFn) stmt(s ast.Stmt, ind string) []string {
 		for _, r := range v.Results {
 			rs = append(rs, f.expr(r))
 		}
+		if f.x.codec && f.deferFlag >= 0 && !f.inDefer {
+			return f.codecReturnWithDefer(v, rs, c, ind)
+		}
 		return f.flush(ind, fmt.Sprintf("%s%s.ret [%s]", c, ind, strings.Join(rs, ", ")))
 	case *ast.BranchStmt:
 		if v.Label != nil || len(f.ctx) == 0 {
@@ -1113,6 +1166,9 @@ func (f *tiFn) stmt(s ast.Stmt, ind string) []string {
 			}
 		}
 		return []string{ind + f.unknownS(v, "branch statement")}
+	}
+	if ds, ok := s.(*ast.DeferStmt); ok && f.x.codec {
+		return f.codecDeferStmt(ds, ind)
 	}
 	return []string{ind + f.unknownS(s, "statement form")}
 }
@@ -1148,7 +1204,7 @@ func (f *tiFn) forStmt(v *ast.ForStmt, ind string) []string {
 // temporary, a second temporary counts; `k`, `v` are assigned at the start of every iteration.
 func (f *tiFn) rangeStmt(v *ast.RangeStmt, ind string) []string {
 	t := f.typ(v.X)
-	if !(tiIsIntSlice(t) || f.isPtrSlice(t)) || v.Tok != token.DEFINE {
+	if !(tiIsIntSlice(t) || f.isPtrSlice(t) || (f.x.codec && codecIsNodeSlice(t))) || v.Tok != token.DEFINE {
 		return []string{ind + f.unknownS(v, "range over something that is not a slice, or without :=")}
 	}
 	xs := f.expr(v.X)
